@@ -57,7 +57,8 @@ def random_seq_ops(rng, n):
 
 
 def conc_line(progs, strat, seed, order):
-    return "%d  %s  %d %d  %d %s" % (len(progs), "  ".join("%d %s" % (len(p), " ".join("0" if x == "copy" else "1" for x in p)) for p in progs),
+    code = {"copy": "0", "drop": "1", "unify_drop": "2"}
+    return "%d  %s  %d %d  %d %s" % (len(progs), "  ".join("%d %s" % (len(p), " ".join(code[x] for x in p)) for p in progs),
                                      strat, seed, len(order), " ".join(map(str, order)))
 
 
@@ -125,7 +126,14 @@ def run(ctx):
     for i in range(150 if quick else 3000):
         n = rng.choice((2, 3, 4))
         progs = [random_prog(rng, 7) for _ in range(n)]
+        if i % 3 == 2:          # a third of the seeded scenarios release some handles through unify() (clone if shared, then let go)
+            progs = [["unify_drop" if (x == "drop" and rng.random() < 0.5) else x for x in p] for p in progs]
         clines.append(conc_line(progs, rng.choice((0, 1, 1, 3)), rng.randrange(1 << 30), []))
+    # the last handles go away at the same time, some of them through unify(): one thread sees "shared", the other one drops, the first one drops to zero
+    for i in range(80 if quick else 1500):
+        n = rng.choice((2, 2, 3))
+        progs = [[rng.choice(("unify_drop", "unify_drop", "drop"))] if rng.random() < 0.7 else ["copy", "unify_drop", rng.choice(("drop", "unify_drop"))] for _ in range(n)]
+        clines.append(conc_line(progs, rng.choice((0, 1, 1, 1)), rng.randrange(1 << 30), []))
     for ln in clines:
         ctx.count_case(ln, nontrivial=True)
     ctx.sample({"interleaving_from_TLC": gh[len(gh) // 2]})
